@@ -169,25 +169,33 @@ def run_cases(ctx, cases, label):
     results = core.run_child(ctx, "c17", cases)
     enc = []
     bad_impl = []
+    unenc = []
     for i, (c, r) in enumerate(zip(cases, results)):
         if "trace" not in r or "ids" not in r:
             bad_impl.append((i, r))
             enc.append(None)
         else:
-            enc.append(encode_case(c, r))
+            try:
+                enc.append(encode_case(c, r))
+            except (KeyError, IndexError, TypeError, ValueError):
+                # the observation is not expressible in the model's vocabulary (e.g. a signed
+                # name reported as canonical variable): a correspondence mismatch, and the
+                # property oracle (judge) decides on the same observation
+                enc.append(None)
+                unenc.append(i)
     idx = [i for i, e in enumerate(enc) if e is not None]
     bad = core.coq_eval_cases(ctx, label, PREAMBLE, "hcase", [enc[i] for i in idx], "check_case_both", shard=120)
     if bad is None:
         return results, list(range(len(cases))), list(range(len(cases))), bad_impl
     mism = [idx[j] for j in bad]
     if not mism:
-        return results, [], [], bad_impl
+        return results, unenc, unenc, bad_impl
     sub = mism[:40]
     bad_v = core.coq_eval_cases(ctx, label + "_v", PREAMBLE, "hcase", [enc[i] for i in sub], "check_case_value", shard=120)
     bad_h = core.coq_eval_cases(ctx, label + "_h", PREAMBLE, "hcase", [enc[i] for i in sub], "check_case_heap", shard=120)
     mism_v = mism if bad_v is None else [sub[j] for j in bad_v]
     mism_h = mism if bad_h is None else [sub[j] for j in bad_h]
-    return results, mism_v, mism_h, bad_impl
+    return results, mism_v + unenc, mism_h + unenc, bad_impl
 
 
 def small_exhaustive(depth):
